@@ -173,7 +173,10 @@ Viol(pre, a, r, post, O1, O2, diff) ==
   \cup Flag("C25", "upgrade-effect",
           UpgOk /\ a.v \in PlanVariants
           /\ ~(/\ c2.par.lvl = c.par.lvl /\ c2.par.drift = c.par.drift
-               /\ c2.par.tp = ScaledTP(c, a.v) /\ c2.par.ubd = PlanUbd(a.v) /\ c2.par.rev = PlanNL(a.v)[1]
+               \* (durations are logged in whole ticks: the scaled value is comparable when the division is exact,
+               \*  otherwise the logged value must be the 'not a whole number of ticks' marker)
+               /\ c2.par.tp = (IF PlanUbd(a.v) >= c.par.ubd \/ (c.par.tp * PlanUbd(a.v)) % c.par.ubd = 0 THEN ScaledTP(c, a.v) ELSE 0 - 1)
+               /\ c2.par.ubd = PlanUbd(a.v) /\ c2.par.rev = PlanNL(a.v)[1]
                /\ c2.latest = PlanNL(a.v)
                /\ PlanNL(a.v) \in DOMAIN c2.cons
                /\ c2.cons[PlanNL(a.v)] = [ts |-> LatestRoot(c).ts, root |-> Sentinel, nv |-> "V"]
